@@ -43,6 +43,7 @@ Variable cap : nat.
 Variable lam : fev -> N.
 Variable vals : list (N * N).
 Hypothesis Hvals : vals_ok vals.
+Variable J : N -> Prop.        (* ids of events whose Process was rejected (their cache entries may be stale) *)
 Variable K : N.                (* bound on the Build counter during the run *)
 
 Notation ws := (map snd vals).
@@ -57,8 +58,8 @@ Notation cache_inv := (cache_inv vals).
 (* simulation at event boundaries; B = the blocks (frame, Atropos, cheaters) emitted so far *)
 Record Sim (i : inst) (T : list node) (Dr : list fev) (B : list (N * N * list N)) : Prop := {
   sm_wf : wfTD vals T Dr;
-  sm_done : Done lam vals T Dr (i_es i) (l_ctr (i_st i)) (i_st i);
-  sm_fresh : forall e, In e Dr -> id_fresh K (eid (fe e));
+  sm_done : Done lam vals T Dr (i_es i) (stale J (l_ctr (i_st i))) (i_st i);
+  sm_fresh : forall e, In e Dr -> id_fresh K (eid (fe e)) /\ ~ J (eid (fe e));
   sm_ctr : l_ctr (i_st i) <= K;
   sm_proc : forall id, In id (i_proc i) <-> In id (ids_of Dr);
   sm_seg : Seg vals T 0 (map fst B) (l_ldf (i_st i));
@@ -133,13 +134,13 @@ Proof.
 Qed.
 
 (* ---------- Process of an event the reference accepts ---------- *)
-Lemma process_step i T Dr B e : Sim i T Dr B -> id_fresh K (eid (fe e)) ->
+Lemma process_step i T Dr B e : Sim i T Dr B -> id_fresh K (eid (fe e)) -> ~ J (eid (fe e)) ->
   parents_known T e -> nlookup (eid (fe e)) T = None -> (ecr (fe e) < nv)%nat -> ev_wf T e ->
   r_frame_ok vals T (mk_node nv T e) = true -> few_forkers vals (mk_node nv T e :: T) ->
   exists bl i', step cap [] sample i (OpP (ae e)) = (ObsP None bl (l_ldf (i_st i')) 1, i', false) /\
     Sim i' (mk_node nv T e :: T) (e :: Dr) (B ++ map blk_obs bl) /\ l_ctr (i_st i') = l_ctr (i_st i).
 Proof.
-  intros [W [S [ES0 AV]] FR CT PR SG CH] Fe PK NL CR EW FO Hff'.
+  intros [W [S [ES0 AV]] FR CT PR SG CH] Fe Je PK NL CR EW FO Hff'.
   set (n := mk_node nv T e). set (st := i_st i) in *. set (es := i_es i) in *.
   destruct ES0 as [C CI I0 N0].
   pose proof (wfTD_wfT vals T Dr W) as HwfT.
@@ -176,11 +177,12 @@ Proof.
     - cbn [l_idx set_idx]. rewrite Ev', E. reflexivity.
     - intros e0 [<-|He0] _; [exact Hes1 | apply Hes1'; exact He0].
     - intros x Hx. right. exact Hx. }
-  assert (NTn : ~ is_temp (l_ctr st) (nd_id n)) by (apply (id_fresh_not_temp K); [exact CT | exact Fe]).
-  assert (CIa : cache_inv (l_ctr st) (set_idx st s') (n :: T) T).
+  assert (NTn : ~ stale J (l_ctr st) (nd_id n)).
+  { intros [Tm|Jn]; [exact (id_fresh_not_temp K _ _ CT Fe Tm) | exact (Je Jn)]. }
+  assert (CIa : cache_inv (stale J (l_ctr st)) (set_idx st s') (n :: T) T).
   { intros a b r Hc. destruct (CI a b r Hc) as [Tm|(na & nb & Ia & Ib & R)]; [left; exact Tm|].
     right. exists na, nb. split; [right; exact Ia | auto]. }
-  destruct (calc_frame_sim cap lam vals Hvals (set_idx st s') es1 (n :: T) (e :: Dr) T (l_ctr st) (n :: T) n (ae e) true
+  destruct (calc_frame_sim cap lam vals Hvals (set_idx st s') es1 (n :: T) (e :: Dr) T (stale J (l_ctr st)) (n :: T) n (ae e) true
               C1 (incl_refl _) (or_introl eq_refl) NTn eq_refl CIa) as [c1 [ECF CI1]].
   rewrite ECF.
   rewrite (frame_check_sim lam vals Hvals (set_idx st s') es1 T Dr e (ae e) C1 eq_refl eq_refl eq_refl).
@@ -195,18 +197,18 @@ Proof.
   { unfold st2. destruct (nd_spf n =? ffr e); repeat split. }
   destruct F2 as (L2 & El2 & Ct2 & Fc2).
   (* the election over the new table *)
-  assert (NT' : forall m, In m (n :: T) -> ~ is_temp (l_ctr st) (nd_id m)).
+  assert (NT' : forall m, In m (n :: T) -> ~ stale J (l_ctr st) (nd_id m)).
   { intros m [<-|Hm]; [exact NTn|]. destruct (node_event vals T Dr m W Hm) as [e0 [He0 [E0 _]]].
-    rewrite <- E0. apply (id_fresh_not_temp K); [exact CT | apply FR, He0]. }
+    rewrite <- E0. destruct (FR e0 He0) as [F0 J0]. intros [Tm|Jn]; [exact (id_fresh_not_temp K _ _ CT F0 Tm) | exact (J0 Jn)]. }
   pose (Sold := fun r => S r /\ exists m g, In m T /\ r = slot m g).
-  assert (E2 : ES lam vals (n :: T) (e :: Dr) es1 (l_ctr st) st2 Sold).
+  assert (E2 : ES lam vals (n :: T) (e :: Dr) es1 (stale J (l_ctr st)) st2 Sold).
   { constructor.
     - exact C2.
     - intros a b r Hc. rewrite Fc2 in Hc. destruct (CI1 a b r Hc) as [Tm|(na & nb & Ia & Ib & R)]; [left; exact Tm|].
       right. exists na, nb. split; [exact Ia|]. split; [right; exact Ib | exact R].
     - rewrite L2, El2. apply (EI_mono vals T (n :: T) HwfT HwfT' (fun x Hx => or_intror Hx)). exact I0.
     - rewrite El2. exact N0. }
-  destruct (handle_sim cap lam vals Hvals (n :: T) (e :: Dr) es1 (l_ctr st) Hff' NT' W' (ae e) n eq_refl eq_refl eq_refl
+  destruct (handle_sim cap lam vals Hvals (n :: T) (e :: Dr) es1 (stale J (l_ctr st)) Hff' NT' W' (ae e) n eq_refl eq_refl eq_refl
               (or_introl eq_refl) (Datatypes.S (Datatypes.S (N.to_nat (ffr e - nd_spf n)))) st2 Sold (nd_spf n + 1) [] E2)
     as [bl [st' [EH [D' [SG' [BO [RR CC]]]]]]].
   { lia. }
@@ -229,7 +231,7 @@ Proof.
   cbn [i_st i_es i_proc]. split; [|rewrite CC, Ct2; reflexivity]. constructor; cbn [i_st i_es i_proc].
   - exact W'.
   - rewrite CC, Ct2. exact D'.
-  - intros e0 [<-|He0]; [exact Fe | apply FR; exact He0].
+  - intros e0 [<-|He0]; [split; [exact Fe | exact Je] | apply FR; exact He0].
   - rewrite CC, Ct2. exact CT.
   - intros id. cbn [to_aevent a_id ids_of map In]. rewrite PR. reflexivity.
   - rewrite map_app. eapply Seg_app.
